@@ -4,6 +4,7 @@ import (
 	"encoding/json"
 	"flag"
 	"fmt"
+	"math"
 	"math/rand"
 	"os"
 
@@ -454,7 +455,14 @@ func (l *lineage) step() {
 	case r < 60: // mating baby
 		m1, m2 := pick(), pick()
 		method := []string{"multipoint", "multipointavg", "singlepoint"}[rand.Intn(3)]
+		// well separated values, exact ties, and pairs that differ in the last bits only (0.1+0.2 vs 0.3, neighbouring
+		// floats, tiny and huge magnitudes): "fitter" is the plain order of the two values, there is no tolerance
 		fs := []float64{1.0, 2.0}
+		switch rand.Intn(4) {
+		case 0:
+			fs = [][]float64{{0.1 + 0.2, 0.3}, {1.0, math.Nextafter(1.0, 2)}, {1e-12, 2e-12}, {16.0, 16.0 - 1e-10},
+				{1e9, 1e9 + 1e-3}, {5e-324, 1e-323}}[rand.Intn(6)]
+		}
 		c := l.mate(m1, m2, method, fs[rand.Intn(2)], fs[rand.Intn(2)])
 		if c != nil && rand.Intn(2) == 0 {
 			l.mutate(c.gid, c.g, pickMutator(big(c.g)))
